@@ -208,7 +208,7 @@ def main():
         ref = panel.get('R7')
         tx = 'ENST0A1'
         L = ref.tx_len(tx)
-        snvs = [E.small_alphabet(ref, tx, p, reduced=True)[0] for p in range(12, L - 6, 13 if run.tier == 'quick' else 7)]
+        snvs = [E.small_alphabet(ref, tx, p, reduced=True)[0] for p in range(12, L - 6, 14 if run.tier == 'quick' else 7)]
         allf = CC.fusion_cases('R7', 'ENST0A1', 'ENST0B1', 1, CC.CFG_NONE)
         bps = sorted({f.fusions[0].donor_pos for f in allf})
         pick = [bps[len(bps) * k // 5] for k in (1, 2, 3, 4)]
@@ -264,15 +264,15 @@ def main():
     if not run.only or 'addfile' in run.only:
         ref = panel.get('R1')
         L = ref.tx_len('ENST01')
-        step = 17 if run.tier == 'quick' else 7
+        step = 14 if run.tier == 'quick' else 7
         pos = list(range(20, L - 12, step))
         jobs, meta = [], []
         for i, p in enumerate(pos):
-            a = tuple(E.small_alphabet(ref, 'ENST01', p, reduced=True)[:2][i % 2:i % 2 + 1])
+            a = tuple(E.small_alphabet(ref, 'ENST01', p, reduced=True)[:2][(p // 7) % 2:(p // 7) % 2 + 1])
             for qd in (4, 9, 40):
                 if p + qd >= L - 3:
                     continue
-                b = (E.small_alphabet(ref, 'ENST01', p + qd, reduced=True)[(i + 1) % 5],)
+                b = (E.small_alphabet(ref, 'ENST01', p + qd, reduced=True)[(p // 7 + 1) % 5],)
                 jobs.append(('R1', a, (), 'a', False))
                 meta.append(('base', a, b, None, None))
                 for order in ('ab', 'ba'):
